@@ -1,10 +1,36 @@
 (* Fs.v -- a POSIX-like filesystem model: what C06/C10 trust about the kernel.
    A tree of directories, files and symbolic links; paths are byte strings
    resolved component by component from a current directory, following
-   symbolic links ('..' and absolute targets included) with a depth limit;
-   permission checks for a non-root process that owns everything it creates.
-   Every operation also appends to a trace of (operation, resolved physical
-   location) used by the confinement theorems. *)
+   symbolic links ('..' and absolute targets included) with the kernel's
+   limit of 40 links per resolution; permission checks for a process that
+   owns everything it creates.  Every successful operation also appends to a
+   trace (operation, resolved physical location) used by the confinement
+   theorems.
+
+   The model has been compared with Linux (tmpfs) by differential testing:
+   harness/c/drv_fs.c executes operation sequences with the real system calls,
+   FsRun.v interprets the same sequences over this model, and
+   harness/py/test_fs.py compares the results of every operation and the final
+   trees.  The comments "Linux:" below record behaviour that was learnt from
+   those tests.
+
+   Conventions.
+   - Permission bits are the usual 12 bits (octal 7777 = 4095).  A node is
+     either owned by the process ([own = true]: the owner bits apply) or by
+     somebody else ([own = false]: the "other" bits apply; group bits are
+     never consulted, i.e. the process is assumed not to be in the group of
+     any node it does not own).
+   - mtime 0 means "the time of the last modification by the kernel", which
+     the model cannot know; any other value was set explicitly by utime().
+     Creating or removing an entry resets the mtime of the directory to 0,
+     writing resets the mtime of the file to 0.
+   - Not modelled: hard links, rename, rmdir, special files, the group class
+     of the permission bits (in particular chmod silently dropping the
+     set-group-ID bit of a file whose group the process is not in), ownership
+     of symbolic links (they count as owned, which matters only for deleting
+     them from a sticky directory), read-only / full filesystems, mount
+     points, immutable/append attributes, ACLs, the protected_symlinks
+     sysctl, signals and short writes, other processes. *)
 From Lhasa Require Import Base.
 Local Open Scope N_scope.
 
@@ -71,6 +97,12 @@ Fixpoint split_path_aux (l : list N) (cur : list N) : list name :=
   end.
 Definition split_path (p : list N) : list name := split_path_aux p [].
 Definition is_absolute (p : list N) : bool := match p with 47 :: _ => true | _ => false end.
+(* "a/", "a//", "/": the path must denote a directory *)
+Definition trailing_slash (p : list N) : bool := match rev p with 47 :: _ => true | _ => false end.
+
+Definition name_max : N := 255.       (* NAME_MAX: longest component *)
+Definition path_max : N := 4095.      (* PATH_MAX - 1: longest path or link target *)
+Definition max_links : nat := 40.     (* MAXSYMLINKS: links followed in one resolution *)
 
 (* node at a physical location *)
 Fixpoint node_at (n : node) (loc : phys) : option node :=
@@ -104,67 +136,98 @@ Fixpoint update_at (n : node) (loc : phys) (f : option node -> option node) : no
               end
   end.
 
+(* ---- permissions ---- *)
+Definition has_bit (perm bit : N) : bool := negb (N.land perm bit =? 0).
+
+Definition owned_node (n : node) : bool :=
+  match n with Dir o _ _ _ => o | File o _ _ _ => o | Link _ => true end.
+
+(* x on a directory: needed to look up any name in it, "." and ".." included *)
 Definition can_search (uid0 : bool) (n : node) : bool :=
-  match n with Dir own perm _ _ => uid0 || negb (N.land perm (if own then 64 else 1) =? 0) | _ => false end.
+  match n with Dir own perm _ _ => uid0 || has_bit perm (if own then 64 else 1) | _ => false end.
+(* w and x on a directory: needed to add or remove an entry *)
 Definition can_write_dir (uid0 : bool) (n : node) : bool :=
-  match n with Dir own perm _ _ => uid0 || (negb (N.land perm (if own then 128 else 2) =? 0)
-                                            && negb (N.land perm (if own then 64 else 1) =? 0)) | _ => false end.
+  match n with Dir own perm _ _ => uid0 || (has_bit perm (if own then 128 else 2)
+                                            && has_bit perm (if own then 64 else 1)) | _ => false end.
+(* removing an entry: in a sticky directory (octal 1000 = 512, e.g. /tmp) one
+   must own the directory or the entry *)
+Definition can_delete (uid0 : bool) (dir victim : node) : bool :=
+  can_write_dir uid0 dir &&
+  (uid0 || owned_node dir || owned_node victim
+   || match dir with Dir _ perm _ _ => negb (has_bit perm 512) | _ => false end).
 
 (* ---- path resolution ----
-   walk: resolve all components; the last one is followed only if
-   follow_last.  Result: the physical location of the parent directory, the
-   last name, and the node found there (None if nothing).  Failure = an
-   intermediate component is missing / not a directory / not searchable, or
-   too many links (ELOOP). *)
+   walk: resolve all components.  A symbolic link in the middle is always
+   followed; one at the end is followed if follow_last, or if must_dir (the
+   path had a trailing slash: it must then denote a directory; Linux: so must
+   a link target that ends in a slash when that link is followed at the end).
+   Looking up any name, "." and ".." included, needs search permission on the
+   directory it is looked up in -- checked before anything else, so a missing
+   name in an unsearchable directory is EACCES, not ENOENT.
+   Result: the physical location of the parent directory, the last name, and
+   the node found there (None if nothing) -- or, when the path ends in "."
+   or ".." or is just "/", the location of that directory.  Failure = an
+   intermediate component is missing (ENOENT), or something else (ENOTDIR,
+   EACCES, ELOOP, ENAMETOOLONG).
+   The recursion is structural: on the components, and on the budget of
+   symbolic links whenever a link target is spliced in. *)
 Inductive walk_res : Type :=
 | WOk (parent : phys) (last : name) (found : option node)
-| WRoot                                   (* the path denotes "/" or "." itself: location in parent *)
-| WDir (loc : phys)                       (* resolved to a directory location with no last name (e.g. "a/..") *)
+| WRoot                                   (* unused (kept for compatibility) *)
+| WDir (loc : phys)                       (* a directory reached without a last name ("a/..", ".", "/") *)
 | WFail (enoent : bool).
 
 Definition dotdot : name := [46; 46].
 Definition dot : name := [46].
 
-Fixpoint walk (fuel : nat) (root : node) (uid0 : bool) (cur : phys) (comps : list name) (follow_last : bool) (links : N)
-  : walk_res :=
-  match fuel with
-  | O => WFail false
-  | S f =>
-    match comps with
-    | [] => WDir cur
-    | c :: rest =>
-      match node_at root cur with
-      | None => WFail true
-      | Some d =>
-        if negb (can_search uid0 d) then WFail (match d with Dir _ _ _ _ => false | _ => false end) else
-        if name_eqb c dot then walk f root uid0 cur rest follow_last links
-        else if name_eqb c dotdot then walk f root uid0 (removelast cur) rest follow_last links
-        else
-          match d with
-          | Dir _ _ _ ents =>
-            match lookup ents c, rest with
-            | None, [] => WOk cur c None
-            | None, _ :: _ => WFail true
-            | Some (Link tgt), [] =>
-              if follow_last then
-                if 40 <? links then WFail false
-                else walk f root uid0 (if is_absolute tgt then [] else cur) (split_path tgt) true (links + 1)
-              else WOk cur c (Some (Link tgt))
-            | Some (Link tgt), _ :: _ =>
-              if 40 <? links then WFail false
-              else walk f root uid0 (if is_absolute tgt then [] else cur) (split_path tgt ++ rest) follow_last (links + 1)
-            | Some m, [] => WOk cur c (Some m)
-            | Some (Dir _ _ _ _), _ :: _ => walk f root uid0 (cur ++ [c]) rest follow_last links
-            | Some (File _ _ _ _), _ :: _ => WFail false        (* ENOTDIR *)
-            end
-          | _ => WFail false
-          end
-      end
-    end
+Fixpoint walk (links : nat) (root : node) (uid0 : bool) (cur : phys) (comps : list name)
+              (follow_last must_dir : bool) {struct links} : walk_res :=
+  (fix go (cur : phys) (comps : list name) {struct comps} : walk_res :=
+     match comps with
+     | [] => WDir cur
+     | c :: rest =>
+       let is_last := match rest with [] => true | _ => false end in
+       match node_at root cur with
+       | None => WFail true
+       | Some (Dir _ _ _ ents as d) =>
+         if negb (can_search uid0 d) then WFail false                 (* EACCES *)
+         else if name_max <? nlen c then WFail false                  (* ENAMETOOLONG *)
+         else if name_eqb c dot then go cur rest
+         else if name_eqb c dotdot then go (removelast cur) rest     (* ".." of "/" is "/" *)
+         else
+           match lookup ents c with
+           | None => if is_last then WOk cur c None else WFail true   (* ENOENT *)
+           | Some (Dir _ _ _ _ as m) =>
+             if is_last then WOk cur c (Some m) else go (cur ++ [c]) rest
+           | Some (File _ _ _ _ as m) =>
+             if is_last && negb must_dir then WOk cur c (Some m) else WFail false   (* ENOTDIR *)
+           | Some (Link tgt as m) =>
+             if is_last && negb (follow_last || must_dir) then WOk cur c (Some m)
+             else
+               match links with
+               | O => WFail false                                     (* ELOOP *)
+               | S links' =>
+                 walk links' root uid0 (if is_absolute tgt then [] else cur)
+                      (split_path tgt ++ rest)
+                      follow_last
+                      (must_dir || (is_last && trailing_slash tgt))
+               end
+           end
+       | Some _ => WFail false                                        (* ENOTDIR *)
+       end
+     end) cur comps.
+
+(* [must_dir] given explicitly (mkdir ignores trailing slashes) *)
+Definition resolve_gen (s : fs) (p : list N) (follow_last must_dir : bool) : walk_res :=
+  match p with
+  | [] => WFail true                                                  (* Linux: "" is ENOENT *)
+  | _ => if path_max <? nlen p then WFail false                       (* ENAMETOOLONG *)
+         else walk max_links (fs_root s) (fs_uid0 s) (if is_absolute p then [] else fs_cwd s)
+                   (split_path p) follow_last must_dir
   end.
 
 Definition resolve (s : fs) (p : list N) (follow_last : bool) : walk_res :=
-  walk 4000 (fs_root s) (fs_uid0 s) (if is_absolute p then [] else fs_cwd s) (split_path p) follow_last 0.
+  resolve_gen s p follow_last (trailing_slash p).
 
 Definition log (s : fs) (o : fsop) (root' : node) : fs :=
   {| fs_root := root'; fs_cwd := fs_cwd s; fs_uid0 := fs_uid0 s; fs_umask := fs_umask s;
@@ -172,6 +235,20 @@ Definition log (s : fs) (o : fsop) (root' : node) : fs :=
 
 Definition parent_writable (s : fs) (parent : phys) : bool :=
   match node_at (fs_root s) parent with Some d => can_write_dir (fs_uid0 s) d | None => false end.
+
+Definition now : N := 0.
+
+(* the directory at [loc] has been modified *)
+Definition touch_dir (root : node) (loc : phys) : node :=
+  update_at root loc (fun o => match o with
+                               | Some (Dir own p _ e) => Some (Dir own p now e)
+                               | x => x end).
+
+(* add / replace / remove the entry [last] of the directory [parent] *)
+Definition set_entry (s : fs) (parent : phys) (last : name) (n : option node) : node :=
+  touch_dir (update_at (fs_root s) (parent ++ [last]) (fun _ => n)) parent.
+
+Definition apply_umask (s : fs) (mode : N) : N := N.land mode (N.lxor 4095 (fs_umask s)).
 
 (* ---- operations (the distinctions lha_arch_unix.c depends on) ---- *)
 
@@ -181,45 +258,61 @@ Definition fs_exists (s : fs) (p : list N) : ftype :=
   | WOk _ _ None => FT_NONE
   | WOk _ _ (Some (Dir _ _ _ _)) => FT_DIRECTORY
   | WOk _ _ (Some (File _ _ _ _)) => FT_FILE
-  | WOk _ _ (Some (Link _)) => FT_ERROR
+  | WOk _ _ (Some (Link _)) => FT_ERROR         (* cannot happen: the last link is followed *)
   | WRoot => FT_DIRECTORY
   | WDir _ => FT_DIRECTORY
   | WFail true => FT_NONE
   | WFail false => FT_ERROR
   end.
 
+(* mkdir(): never follows the last component (Linux: not even for "link/":
+   trailing slashes are simply ignored).  Of the mode only rwxrwxrwx and the
+   sticky bit are used (octal 1777 = 1023); Linux: a directory made inside a
+   set-group-ID directory (octal 2000 = 1024) is set-group-ID too. *)
 Definition fs_mkdir (s : fs) (p : list N) (mode : N) : bool * fs :=
-  match resolve s p false with
+  match resolve_gen s p false false with
   | WOk parent last None =>
-    if parent_writable s parent then
-      let m := N.land (N.land mode 4095) (N.lxor 4095 (fs_umask s)) in
-      (true, log s (OpMkdir (parent ++ [last]) m)
-                 (update_at (fs_root s) (parent ++ [last]) (fun _ => Some (Dir true m 0 []))))
-    else (false, s)
+    match node_at (fs_root s) parent with
+    | Some (Dir _ pperm _ _ as d) =>
+      if can_write_dir (fs_uid0 s) d then
+        let m := N.lor (apply_umask s (N.land mode 1023)) (N.land pperm 1024) in
+        (true, log s (OpMkdir (parent ++ [last]) m)
+                   (set_entry s parent last (Some (Dir true m now []))))
+      else (false, s)
+    | _ => (false, s)
+    end
   | _ => (false, s)
   end.
 
-(* unlink(): never follows the last component; directories are not removed *)
+(* unlink(): never follows the last component; directories are not removed;
+   fails on a trailing slash whatever is there *)
 Definition fs_unlink (s : fs) (p : list N) : bool * fs :=
+  if trailing_slash p then (false, s) else
   match resolve s p false with
   | WOk parent last (Some (Dir _ _ _ _)) => (false, s)
-  | WOk parent last (Some _) =>
-    if parent_writable s parent then
-      (true, log s (OpUnlink (parent ++ [last])) (update_at (fs_root s) (parent ++ [last]) (fun _ => None)))
-    else (false, s)
+  | WOk parent last (Some victim) =>
+    match node_at (fs_root s) parent with
+    | Some d =>
+      if can_delete (fs_uid0 s) d victim then
+        (true, log s (OpUnlink (parent ++ [last])) (set_entry s parent last None))
+      else (false, s)
+    | None => (false, s)
+    end
   | _ => (false, s)
   end.
 
-(* open(O_CREAT|O_EXCL|O_WRONLY, mode): fails if anything (even a dangling link) is there.
+(* open(O_CREAT|O_EXCL|O_WRONLY, mode): fails if anything (even a dangling
+   link) is there, and on a trailing slash.
    Returns the physical location of the new file: the open handle. *)
 Definition fs_create_excl (s : fs) (p : list N) (mode : N) : option phys * fs :=
+  if trailing_slash p then (None, s) else
   match resolve s p false with
   | WOk parent last None =>
     if parent_writable s parent then
-      let m := N.land (N.land mode 4095) (N.lxor 4095 (fs_umask s)) in
+      let m := apply_umask s (N.land mode 4095) in
       (Some (parent ++ [last]),
        log s (OpCreate (parent ++ [last]))
-           (update_at (fs_root s) (parent ++ [last]) (fun _ => Some (File true m 0 []))))
+           (set_entry s parent last (Some (File true m now []))))
     else (None, s)
   | _ => (None, s)
   end.
@@ -230,26 +323,41 @@ Definition fs_fchmod (s : fs) (h : phys) (mode : N) : bool * fs :=
              (update_at (fs_root s) h (fun o => match o with
                                              | Some (File own _ t d) => Some (File own (N.land mode 4095) t d)
                                              | x => x end))).
+(* fchown to another user: root only (see fs_chown) *)
 Definition fs_fchown (s : fs) (h : phys) : bool * fs :=
   (fs_uid0 s, if fs_uid0 s then log s (OpChown h) (fs_root s) else s).
+(* Linux: writing at least one byte as non-root clears the set-user-ID bit
+   (octal 4000 = 2048), and the set-group-ID bit (2000 = 1024) if the file is
+   group-executable (010 = 8): an extracted file does not keep them. *)
+Definition drop_setid (perm : N) : N :=
+  N.land perm (N.lxor 4095 (2048 + (if has_bit perm 8 then 1024 else 0))).
 Definition fs_write (s : fs) (h : phys) (bytes : list N) : fs :=
+  let keep := fs_uid0 s || match bytes with [] => true | _ => false end in
   log s (OpWrite h (nlen bytes))
       (update_at (fs_root s) h (fun o => match o with
-                                      | Some (File own p t d) => Some (File own p t (d ++ bytes))
+                                      | Some (File own p _ d) =>
+                                        Some (File own (if keep then p else drop_setid p) now (d ++ bytes))
                                       | x => x end)).
 
-(* remove(): like unlink for files *)
+(* remove(): unlink for everything but directories.  (The real remove() would
+   rmdir an empty directory; rmdir is not modelled, so this fails on every
+   directory.  lha_arch_fopen only removes the file it has just created.) *)
 Definition fs_remove (s : fs) (p : list N) : bool * fs := fs_unlink s p.
 
+(* symlink(target, p): the target is stored as it is, never looked at; it must
+   not be empty.  Nothing may exist at p (not even a dangling link). *)
 Definition fs_symlink (s : fs) (target p : list N) : bool * fs :=
+  if trailing_slash p then (false, s) else
+  match target with [] => (false, s) | _ =>
+  if path_max <? nlen target then (false, s) else
   match resolve s p false with
   | WOk parent last None =>
     if parent_writable s parent then
       (true, log s (OpSymlink (parent ++ [last]) target)
-                 (update_at (fs_root s) (parent ++ [last]) (fun _ => Some (Link target))))
+                 (set_entry s parent last (Some (Link target))))
     else (false, s)
   | _ => (false, s)
-  end.
+  end end.
 
 (* chmod / chown / utime follow links and need ownership (or root) *)
 Definition with_target (s : fs) (p : list N) (k : phys -> node -> bool * fs) : bool * fs :=
@@ -259,8 +367,7 @@ Definition with_target (s : fs) (p : list N) (k : phys -> node -> bool * fs) : b
   | _ => (false, s)
   end.
 
-Definition owned (s : fs) (n : node) : bool :=
-  fs_uid0 s || match n with Dir o _ _ _ => o | File o _ _ _ => o | Link _ => true end.
+Definition owned (s : fs) (n : node) : bool := fs_uid0 s || owned_node n.
 
 Definition fs_chmod (s : fs) (p : list N) (mode : N) : bool * fs :=
   with_target s p (fun loc n =>
@@ -272,8 +379,19 @@ Definition fs_chmod (s : fs) (p : list N) (mode : N) : bool * fs :=
                    | x => x end)))
     else (false, s)).
 
+(* chown to another user: root only.  (The new owner is not recorded: root
+   passes every check anyway.)  Linux: it clears the set-ID bits of a file.
+   Not modelled: a non-root chown that names the process's own uid and one of
+   its own groups succeeds (changing nothing but those set-ID bits); here it
+   fails.  lhasa ignores the result of chown. *)
 Definition fs_chown (s : fs) (p : list N) : bool * fs :=
-  with_target s p (fun loc n => if fs_uid0 s then (true, log s (OpChown loc) (fs_root s)) else (false, s)).
+  with_target s p (fun loc n =>
+    if fs_uid0 s then
+      (true, log s (OpChown loc)
+                 (update_at (fs_root s) loc (fun o => match o with
+                   | Some (File own pm t d) => Some (File own (drop_setid pm) t d)
+                   | x => x end)))
+    else (false, s)).
 
 Definition fs_utime (s : fs) (p : list N) (t : N) : bool * fs :=
   with_target s p (fun loc n =>
